@@ -20,6 +20,23 @@ def main(argv):
         replay = argv[argv.index('--replay') + 1]
         tier = os.environ.get('VERIF_TIER', 'quick')
     seed = int(os.environ.get('VERIF_SEED', '20260929'))
+    # The library itself must import: a source tree on which `import soupsieve` raises breaks every property (nothing the
+    # property prescribes can be obtained), so that is reported as a violation with the import as the failing input.
+    try:
+        import soupsieve  # noqa: F401
+        import bs4  # noqa: F401
+    except BaseException as e:      # noqa: BLE001
+        import json
+        tb = traceback.format_exc()
+        print(tb)
+        root = os.path.join(HERE, '..')
+        os.makedirs(os.path.join(root, 'replays'), exist_ok=True)
+        rp = os.path.join(root, 'replays', f'{pid}_import0.json')
+        with open(rp, 'w') as f:
+            json.dump({'property': pid, 'what': f'`import soupsieve` raises {type(e).__name__}: {e}'[:400],
+                       'input': {'program': 'import soupsieve'}, 'traceback': tb[-3000:]}, f, indent=1)
+        print(f'VIOLATION property={pid} replay={os.path.abspath(rp)}')
+        return 1
     try:
         mod = importlib.import_module(f'props.{pid.lower()}')
     except ImportError:
